@@ -145,10 +145,22 @@ def type_args_ok(h, ov):
             return depth > 3 or not nxt or nxt[0] == v or classy(nxt[0], depth + 1) or mentions(nxt[0], [v])
         return v[0] == 'union' and all(x[0] == 'cls' for x in v[1])
     if h[0] == 'type':
-        for c in h[1]:
+        # follow chained replacements (float -> float | int under the tower, then int -> List[int]): every class reached must be
+        # rewritten to classes only
+        todo, seen = [['cls', c] for c in h[1]], []
+        while todo:
+            k = todo.pop()
+            if k in seen:
+                continue
+            seen.append(k)
             for a, b in ov:
-                if a == ['cls', c] and not (b[0] == 'cls' or (b[0] == 'union' and all(x[0] == 'cls' for x in b[1]))):
-                    return False
+                if a == k:
+                    if b[0] == 'cls':
+                        todo.append(b)
+                    elif b[0] == 'union' and all(x[0] == 'cls' for x in b[1]):
+                        todo += b[1]
+                    else:
+                        return False
         return True
     kids = {'union': lambda: h[1], 'optional': lambda: [h[1]], 'cont': lambda: [h[2]], 'map': lambda: [h[2], h[3]],
             'counter': lambda: [h[1]], 'tuplefixed': lambda: h[1], 'annot': lambda: [h[1]]}.get(h[0], lambda: [])()
